@@ -717,6 +717,9 @@ class PathResolver:
             return self.paths(iter_expr.elt, node)
         if isinstance(iter_expr, ast.Subscript) and isinstance(iter_expr.slice, ast.Slice):
             return self._iter_elem_paths(iter_expr.value, idx, node)
+        ce = self._comp_elems(iter_expr, node) if not idx else None
+        if ce is not None:
+            return ce
         # a local list filled by appends: its elements are what was appended
         if isinstance(iter_expr, ast.Name) and node is not None and not idx:
             defs = self.cfg.reaching(node, iter_expr.id)
@@ -740,6 +743,20 @@ class PathResolver:
                 p = p.add(f'[{i}]')
             out.append(p)
         return out
+
+    def _comp_elems(self, e, node):
+        """element paths of a local that was built by a comprehension (list / set / dict values)."""
+        if not isinstance(e, ast.Name) or node is None:
+            return None
+        defs = self.cfg.reaching(node, e.id)
+        if len(defs) != 1 or defs[0].kind != 'stmt' or not isinstance(defs[0].ast, (ast.Assign, ast.AnnAssign)):
+            return None
+        v = defs[0].ast.value
+        if isinstance(v, (ast.ListComp, ast.SetComp, ast.GeneratorExp)):
+            return self.paths(v.elt, defs[0])
+        if isinstance(v, ast.DictComp):
+            return self.paths(v.value, defs[0])
+        return None
 
     def _def_paths(self, name: str, d: CNode, node) -> list[Path]:
         """paths bound to `name` by definition node d."""
@@ -856,6 +873,9 @@ class PathResolver:
         if isinstance(e, ast.Subscript):
             if isinstance(e.slice, ast.Slice):
                 return [Path(('fresh', e.lineno))]
+            ce = self._comp_elems(e.value, node)
+            if ce is not None:
+                return ce
             k = e.slice
             if isinstance(k, ast.Constant) and isinstance(k.value, str):
                 step = f"['{k.value}']"
@@ -922,6 +942,9 @@ class PathResolver:
                     return fresh
             if fn.attr in ('get', 'pop', 'setdefault'):
                 res = self.env.resolve_call(e)
+                ce = self._comp_elems(fn.value, node) if res[0] == 'method' else None
+                if ce is not None:
+                    return ce + (self.paths(e.args[1], node) if len(e.args) > 1 else [])
                 if res[0] == 'method':
                     out = []
                     k = e.args[0] if e.args else None
